@@ -121,6 +121,12 @@ ARGSETS = [
     (["C", "E", "G"], "C"), (["C", "E", "G"], True), (["C", "E", "G"], "C", True), (4,), (4, 2), (3, "b"), ((6, 8),), (["C", "G"],),
     ("I", "C"), (["A", "Bb", "E", "F#", "G"],), (["E", "G", "C"], False, True),
 ]
+# every list length the recognisers take, with every combination of their flags (shorthand, no_inversion, no_polychords): a
+# function that rotates or trims the caller's list does so only on some paths
+for _l in (["C", "E"], ["E", "G", "C"], ["C", "E", "G", "B"], ["E", "G", "B", "C"], ["C", "E", "G", "B", "D"], ["C", "E", "G", "Bb", "D", "F"],
+           ["C", "E", "G", "Bb", "D", "F", "A"], ["C", "Eb", "Gb", "A"]):
+    for _fl in ((), (True,), (False, True), (True, True), (False, False, True), (True, True, True), (False, True, True)):
+        ARGSETS.append((_l,) + _fl)
 
 def arg_aliasing(fname):
     f = dict(public_functions())[fname]
@@ -194,6 +200,33 @@ def siblings():
     if (n.name, n.velocity) != ("C", 90): bad.append("Note(note)")
     x = NoteContainer(["C", "E"]); y = NoteContainer(x); y.transpose("3"); y.add_note("B")
     if [str(z) for z in x] != ["'C-4'", "'E-4'"]: bad.append("NoteContainer(container)")
+    return bad
+
+def midi_order():
+    """two MIDI tracks written one after the other, in both orders, each order on freshly executed modules: what a track
+    writes must not depend on which other track was written before it"""
+    def track_a(mt):
+        t = mt.MidiTrack()
+        b1 = Bar("C", (4, 4)); b1.place_notes("C", 2); b1.place_rest(2)            # ends in a rest: carried over the bar line
+        b2 = Bar("C", (3, 4)); b2.place_notes("E", 4); b2.place_rest(2)
+        b3 = Bar("G", (6, 8)); b3.place_notes("G", 8)
+        for b in (b1, b2, b3):
+            t.play_Bar(b)
+        return bytes(t.track_data)
+    def track_b(mt):
+        t = mt.MidiTrack()
+        b1 = Bar("C", (3, 4)); b1.place_notes("A", 4); b1.place_notes("B", 2)
+        b2 = Bar("G", (6, 8)); b2.place_rest(8); b2.place_notes("D", 8)
+        b3 = Bar("C", (4, 4)); b3.place_notes("C", 1)
+        for b in (b1, b2, b3):
+            t.play_Bar(b)
+        return bytes(t.track_data)
+    bad = []
+    mt = importlib.reload(midi_track); a1 = track_a(mt); b1 = track_b(mt)
+    mt = importlib.reload(midi_track); b2 = track_b(mt); a2 = track_a(mt); a3 = track_a(mt)
+    if a1 != a2: bad.append("a track ending bars in rests writes other bytes after another track has been written")
+    if b1 != b2: bad.append("a track writes other bytes after a track with carried-over rests has been written")
+    if a2 != a3: bad.append("the same music written twice gives other bytes the second time")
     return bad
 
 def inst_script(cls_name, ops):
@@ -280,6 +313,7 @@ IMPL = {
     "alias.args": arg_aliasing,
     "alias.methods": method_aliasing,
     "alias.siblings": siblings,
+    "alias.midi_order": midi_order,
     "alias.inst_real": inst_script,
     "alias.lookup": lambda table, fs: lookups(fs),
     "alias.lookup_cold": lambda fs: [lookups(fs), lookups_cold(fs)],
@@ -330,6 +364,7 @@ def cases(tier, rng):
         yield Case("alias.find_notes", [tabs, rng.choice([100, 60, 128])], "lookup/find_notes", model=False, kind=("lookup_cold",))
     yield Case("alias.methods", [], "args/methods", model=False, kind=("list",))
     yield Case("alias.siblings", [], "instances/siblings", model=False, kind=("list",))
+    yield Case("alias.midi_order", [], "instances/midi-order", model=False, kind=("list",))
     for cls in ["NoteContainer", "Bar", "Track", "Composition", "Suite"]:
         for _ in range(10):
             ops = [["create"]] + [rng.choice([["create"], ["append", rng.randint(0, 3), "x"]]) for _ in range(rng.randint(2, 12))]
